@@ -115,6 +115,12 @@ def _forward_cells():
                     (False, True), LEVIES, (True, False), (False, True), (False, True)):
                 yield {"kind": "forward", "sde_type": sde_type, "noise_type": noise_type, "method": method,
                        "grad_free": grad_free, "levy": levy, "bm_given": bm_given, "adaptive": adaptive, "logqp": logqp}
+                if bm_given and not adaptive and not logqp:
+                    # the same cell entered through sdeint_adjoint (its forward pass builds its own solver): the documented
+                    # combinations and the up-front ValueError are the same for both entry points
+                    yield {"kind": "forward", "sde_type": sde_type, "noise_type": noise_type, "method": method,
+                           "grad_free": grad_free, "levy": levy, "bm_given": bm_given, "adaptive": adaptive,
+                           "logqp": logqp, "api": "sdeint_adjoint"}
                 if noise_type in ("general", "additive") and not logqp:
                     # the same cell with a single Brownian channel: "general" stays general when m == 1
                     yield {"kind": "forward", "sde_type": sde_type, "noise_type": noise_type, "method": method,
@@ -206,6 +212,7 @@ def _run_forward(case):
     sig = {k: case[k] for k in ("sde_type", "noise_type", "method", "levy", "bm_given", "adaptive", "logqp",
                                 "grad_free")}
     sig["m"] = sde.m
+    sig["api"] = case.get("api", "sdeint")
     with brownian_tools.node_budget(10 ** 7) as counter:
         if case["bm_given"]:
             # with logqp the state gains one channel; for diagonal noise the Brownian motion must match it
@@ -215,7 +222,7 @@ def _run_forward(case):
         counter["calls"] = 0
         try:
             with torch.no_grad():
-                out = torchsde.sdeint(sde, y0, ts, **kw)
+                out = getattr(torchsde, case.get("api", "sdeint"))(sde, y0, ts, **kw)
             got = "ok"
         except ValueError:
             got = "ValueError"
